@@ -60,6 +60,8 @@ pub fn run_property(ctx: &Ctx) -> Option<Report> {
             );
             r.assume("zstd is trusted as a codec; in canonical mode the real encoder must reproduce the independent encoder's bytes");
             wirecheck::run(ctx, &mut r);
+            // the same messages through the real transport's send and receive paths
+            r.push(srv::udp_smoke(ctx));
             r.push(fuzzers::corpus_replay(ctx, &["wire_decode", "wire_roundtrip"], ctx.tier.pick(400, 4000)));
             if ctx.tier == Tier::Thorough {
                 r.push(fuzzers::campaign(ctx, "wire_decode", (3_000_000f64 * ctx.scale) as u64, 65_507));
@@ -214,7 +216,10 @@ pub fn replay_property(ctx: &Ctx, sub: &str, case: &serde_json::Value) -> SubRes
             "udp-loopback-smoke" => srv::udp_smoke(ctx),
             _ => mtu::replay(ctx, sub, case),
         },
-        "C08" => wirecheck::replay(ctx, sub, case),
+        "C08" => match sub {
+            "udp-loopback-smoke" => srv::udp_smoke(ctx),
+            _ => wirecheck::replay(ctx, sub, case),
+        },
         "C14" => pairs::replay_c14(ctx, sub, case),
         "C18" => catchup::replay(ctx, sub, case),
         "C19" => match sub {
